@@ -1119,7 +1119,8 @@ def fromFunction(func, interface=None, imlevel=0, name=None):
     method.required = names[:nr]
     method.optional = opt
 
-    argno = na
+    # Keyword-only arguments come before *args and **kw in co_varnames.
+    argno = na + code.co_kwonlyargcount
 
     # Determine the function's variable argument's name (i.e. *args)
     if code.co_flags & CO_VARARGS:
